@@ -6,6 +6,7 @@ Import ListNotations.
 From CXV Require Import Gen.TokTy Parse.Balanced Parse.BalancedThms Parse.Declarator Parse.DeclSpec Parse.DeclThms Parse.DeclPins.
 From CXV Require Gen.PinsC01.
 From CXV Require Import Parse.PQName Parse.Using Parse.EnumDecl Parse.ParamsX Parse.DeclStmt Parse.TemplateStmt.
+From CXV Require Import Parse.Members Parse.MethodTail Parse.MemberStmt Parse.OpName Parse.ConvOp Parse.OperatorMember Parse.OperatorFn.
 From CXV Require Import Parse.DispatchLang Gen.Dispatch Parse.DispatchExternThms Parse.DispatchInlineThms.
 From CXV Require Import Parse.EnumList Parse.Specs Parse.VarStmt Parse.FnTail Parse.Init Parse.Members Parse.Template.
 From CXV Require Import Parse.Fold Parse.FoldThms Parse.FoldPlace.
@@ -271,6 +272,21 @@ Theorem typedef_goes_to_the_declaration_parser : forall kw x R ic,
   run prog_parse_typedef ic kw (x :: R) = OCall F_declarations [RTok (Some x); RDox] [(1, RBool true)] R.
 Proof. exact typedef_dispatch. Qed.
 
+(* Operator functions at namespace scope: `spec* T spec* <pointer / reference operators> operator <op> ( params ) <tail>` is one
+   function whose operator is exactly the tokens written behind `operator`, with return type, parameters, specifier flags,
+   exception specification and ending (';', a body, `= delete`) as written *)
+Theorem operator_function_decodes_partial : forall pre post b ls o ps va th ne nep en rest,
+  forallb spec_kw pre = true -> forallb spec_kw post = true ->
+  has T_explicit (pre ++ post) = false -> has T_virtual (pre ++ post) = false -> has T_mutable (pre ++ post) = false ->
+  all_pfx ls = true -> legalL KB ls = true -> op_ok o ->
+  layer_ok (LFn ps va) -> tail_ok th ne nep en (after_tail en rest) ->
+  let m := apply_kws (pre ++ post) mods0 in
+  let t := wrap (TBase b (m_const m) (m_volatile m)) ls in
+  ev (fun f => op_fn_stmt f (kw_toks pre ++ nm_tok b :: kw_toks post ++ P ls [] ++ ktok T_operator :: op_toks o ++
+                             ktok LP :: params_toks ps va ++ ktok RP :: spec_toks th ne nep ++ ending_toks en ++ after_tail en rest))
+     (DOk (mkOpF m (op_toks o) t ps va (tail_of th ne en), rest)).
+Proof. exact op_fn_roundtrip. Qed.
+
 (* What a `template` statement is handed on to (_parse_template): behind ONE header
    the next token selects the continuation -- `using`, `friend`, `concept`, a
    requires-clause, or (any other token) a declaration that starts with that
@@ -369,6 +385,7 @@ Print Assumptions plain_extern_is_a_declaration.
 Print Assumptions inline_namespace_goes_to_the_namespace_parser.
 Print Assumptions other_inline_is_a_declaration.
 Print Assumptions typedef_goes_to_the_declaration_parser.
+Print Assumptions operator_function_decodes_partial.
 Print Assumptions template_statement_one_header_partial.
 Print Assumptions template_statement_many_headers_partial.
 Print Assumptions explicit_instantiation_consumes_nothing.
